@@ -23,3 +23,34 @@ package math
 //@   inline
 //@ func isExactInt
 //@   inline
+
+// C17 sweep: zero-annotation panic-freedom obligations for the module's functions,
+// for every argument value.
+//@ func abs
+//@   props C17
+//   (vals.Num holds one of the four number types: the argument scanner guarantees it)
+//@   requires isnumber(n)
+//@ func ceil
+//@   props C17
+//@   requires isnumber(n)
+//@ func floor
+//@   props C17
+//@   requires isnumber(n)
+//@ func isInfOpts.SetDefaultOptions
+//@   props C17
+//@ func isInf
+//@   props C17
+//@ func isNaN
+//@   props C17
+//@ func round
+//@   props C17
+//@   requires isnumber(n)
+//@ func roundToEven
+//@   props C17
+//@   requires isnumber(n)
+//@ func trunc
+//@   props C17
+//@   requires isnumber(n)
+//@ func integerize
+//@   props C17
+//@   requires isnumber(n)
